@@ -256,20 +256,26 @@ structure World where
   act : List Handler
   groups : List Group
 
-/-- `Supervisor.handle_signal()` on SIGUSR2; `line` = the formatted "received SIGUSR2 …" message
-    (its text is computed in the source, so the harness passes what was logged) -/
-def sigusr2 (fmt : String → Bytes) (line : Bytes) (w : World) : Option World :=
-  if postOk sigusr2_post then
+/-- `Supervisor.handle_signal()` on SIGUSR2 while the daemon is in `mood`; `line` = the formatted
+    "received SIGUSR2 …" message (its text is computed in the source, so the harness passes what was
+    logged).  The statements are those of handle_signal specialised to SIGUSR2 and to the mood. -/
+def sigusr2 (fmt : String → Bytes) (line : Bytes) (mood : String) (w : World) : Option World :=
+  if postOk (sigusr2_post mood) then
     -- the computed message is substituted for the "?" argument
-    let pre := sigusr2_pre.map fun st => if st.act = "logger.info" && st.arg = "?" then { st with arg := "" } else st
+    let pre := (sigusr2_pre mood).map fun st => if st.act = "logger.info" && st.arg = "?" then { st with arg := "" } else st
     match runPre (fun m => if m = "" then line else fmt m)
         (fun f hs => if f = "self.options.reopenlogs" then optReopenlogs fmt hs else none) pre w.act with
     | none => none
     | some act' =>
-      match forEach groupActs sigusr2_body w.groups with
-      | none => none
-      | some gs => some ⟨act', gs⟩
+      if sigusr2_loops mood then
+        match forEach groupActs (sigusr2_body mood) w.groups with
+        | none => none
+        | some gs => some ⟨act', gs⟩
+      else some ⟨act', w.groups⟩
   else none
+
+/-- an RPC method that begins with `self._update(...)` is refused (SHUTDOWN_STATE) in some moods: nothing happens -/
+def rpcRefused (method mood : String) : Bool := rpcGated.contains method && rpcRefusedMoods.contains mood
 
 def procCalls : List String → Proc → Option Proc
   | [], p => some p
@@ -285,6 +291,59 @@ def clearProc (g p : Nat) (w : World) : Option World :=
 /-- `rpcinterface.clearAllProcessLogs()`: clearProcessLogs for every process of every group -/
 def clearAll (w : World) : Option World :=
   (allM (allM (procCalls clearProcessLogs_calls)) w.groups).map fun gs => { w with groups := gs }
+
+/-! ### from the configured value to the handler parameters -/
+
+/-- `Options._set(attr, value, prio)` on (value, priority of the last assignment) -/
+def setAttr (cur : Option Int × Int) (v : Option Int) (prio : Int) : Option Int × Int :=
+  if optSetOverrides prio cur.2 then (v, prio) else cur
+
+def setCli (cli : Option Int) (cur : Option Int × Int) : Option Int × Int :=
+  match cli with
+  | some v => setAttr cur (some v) optPrioCli
+  | none => cur
+
+/-- `Options.realize()` + `process_config()` for one option: the command line value (if given), then the
+    value of the configuration section, then "Process defaults"; the result is the attribute
+    (`none` = it stays None) -/
+def effective (cli file : Option Int) (dflt : Int) : Option Int :=
+  let a := setAttr (setCli cli (none, optPrioUnset)) file optPrioFile
+  if optDefaultApplies a.1 then some dflt else a.1
+
+/-- `get(option, default)` of read_config: the section always has a value -/
+def sectionValue (written : Option Int) (dflt : Int) : Int :=
+  match written with
+  | some v => v
+  | none => dflt
+
+/-- `loggers.handle_file(logger, filename, fmt, rotating, maxbytes, backups)`: what the handler gets -/
+def handleFileCfg (rot : Bool) (mb bk : Int) : Option Cfg :=
+  let pick (src : String) : Option Int :=
+    if src = "maxbytes" then some mb else if src = "backups" then some bk else none
+  match pick handleFile_maxBytesFrom, pick handleFile_backupCountFrom with
+  | some m, some b => some ⟨rot, m, b⟩
+  | _, _ => none
+
+/-- the activity log's handler parameters from what the operator wrote: `-y` / `-z` on the command line
+    (`cliMb`, `cliBk`), `logfile_maxbytes` / `logfile_backups` in `[supervisord]` (`fileMb`, `fileBk`);
+    `none` = not given -/
+def actCfg (cliMb fileMb cliBk fileBk : Option Int) : Option Cfg :=
+  match effective cliMb (some (sectionValue fileMb fileMaxbytesDefault)) optMaxbytesDefault,
+        effective cliBk (some (sectionValue fileBk fileBackupsDefault)) optBackupsDefault with
+  | some mb, some bk => handleFileCfg (makeLogger_rotating mb bk) (makeLogger_maxbytes mb bk) (makeLogger_backups mb bk)
+  | _, _ => none
+
+/-- `ServerOptions.make_logger()` on attributes that already hold `mb`, `bk` -/
+def actCfgOfAttrs (mb bk : Int) : Option Cfg :=
+  handleFileCfg (makeLogger_rotating mb bk) (makeLogger_maxbytes mb bk) (makeLogger_backups mb bk)
+
+/-- a child's stdout / stderr log from `stdout_logfile_maxbytes` / `_backups` of its section (`none` = not
+    written); `listener`: the log is opened by PEventListenerDispatcher -/
+def chanCfg (listener : Bool) (mb bk : Option Int) : Option Cfg :=
+  let m := sectionValue mb progMaxbytesDefault
+  let b := sectionValue bk progBackupsDefault
+  if listener then handleFileCfg (listenerlog_rotating m b) (listenerlog_maxbytes m b) (listenerlog_backups m b)
+  else handleFileCfg (normallog_rotating m b) (normallog_maxbytes m b) (normallog_backups m b)
 
 /-! line protocol -/
 
@@ -336,54 +395,68 @@ def parseLogId (l : String) : Option (Option (Nat × Nat × Nat)) :=
       | _, _, _ => none
     | _ => none
 
-def stepWorld (fmt : String → Bytes) (w : World) (l : String) : Option (Option World) :=
+/-- one operation in mood `mood`; the result carries the mood afterwards (`setmood`: SIGTERM / SIGHUP / the
+    shutdown and restart RPCs — which mood they lead to is observed, not modelled; the message they log is) -/
+def stepWorld (fmt : String → Bytes) (mood : String) (w : World) (l : String) : Option (Option (String × World)) :=
+  let keep (r : Option World) : Option (String × World) := r.map fun w' => (mood, w')
   match words l with
-  | ["log", h] => (bytesOfHex h).map fun b => some { w with act := logAll b w.act }
+  | ["log", h] => (bytesOfHex h).map fun b => some (mood, { w with act := logAll b w.act })
   | ["chunk", g, p, d, h] =>
     match g.toNat?, p.toNat?, chanIdx d, bytesOfHex h with
-    | some g, some p, some d, some b => some (onLog g p d (fun c s => emit c b s) w)
+    | some g, some p, some d, some b => some (keep (onLog g p d (fun c s => emit c b s) w))
     | _, _, _, _ => none
-  | ["clearlog"] => some ((clearLog fmt w.act).map fun a => { w with act := a })
-  | ["optreopen"] => some ((optReopenlogs fmt w.act).map fun a => { w with act := a })
-  | ["sigusr2", h] => (bytesOfHex h).map fun b => sigusr2 fmt b w
+  | ["setmood", m, h] =>
+    if supervisorMoods.contains m then
+      (if h = "-" then some (some (m, w)) else (bytesOfHex h).map fun b => some (m, { w with act := logAll b w.act }))
+    else none
+  | ["clearlog"] =>
+    if rpcRefused "clearLog" mood then some (some (mood, w))
+    else some (keep ((clearLog fmt w.act).map fun a => { w with act := a }))
+  | ["optreopen"] => some (keep ((optReopenlogs fmt w.act).map fun a => { w with act := a }))
+  | ["sigusr2", h] => (bytesOfHex h).map fun b => keep (sigusr2 fmt b mood w)
   | ["clearproc", g, p] =>
     match g.toNat?, p.toNat? with
-    | some g, some p => some (clearProc g p w)
+    | some g, some p => if rpcRefused "clearProcessLogs" mood then some (some (mood, w)) else some (keep (clearProc g p w))
     | _, _ => none
-  | ["clearall"] => some (clearAll w)
+  | ["clearall"] => if rpcRefused "clearAllProcessLogs" mood then some (some (mood, w)) else some (keep (clearAll w))
   | ["extremove", id, n] =>
     match parseLogId id, n.toInt? with
-    | some none, some n => some (some (onActFiles (fun _ s => extRemove n s) w))
-    | some (some (g, p, d)), some n => some (onLog g p d (fun _ s => extRemove n s) w)
+    | some none, some n => some (some (mood, onActFiles (fun _ s => extRemove n s) w))
+    | some (some (g, p, d)), some n => some (keep (onLog g p d (fun _ s => extRemove n s) w))
     | _, _ => none
   | ["extreplace", id, n, h] =>
     match parseLogId id, n.toInt?, bytesOfHex h with
-    | some none, some n, some b => some (some (onActFiles (fun _ s => extReplace n b s) w))
-    | some (some (g, p, d)), some n, some b => some (onLog g p d (fun _ s => extReplace n b s) w)
+    | some none, some n, some b => some (some (mood, onActFiles (fun _ s => extReplace n b s) w))
+    | some (some (g, p, d)), some n, some b => some (keep (onLog g p d (fun _ s => extReplace n b s) w))
     | _, _, _ => none
   | _ => none
 
-def runWorld (fmt : String → Bytes) (top : Nat) : Option World → List String → List String
-  | _, [] => []
-  | none, _ :: r => "unmodelled" :: runWorld fmt top none r
-  | some w, l :: r =>
-    match stepWorld fmt w l with
-    | none => "bad-op" :: runWorld fmt top (some w) r
-    | some none => "unmodelled" :: runWorld fmt top none r
-    | some (some w') => showWorld top w' :: runWorld fmt top (some w') r
+def runWorld (fmt : String → Bytes) (top : Nat) : String → Option World → List String → List String
+  | _, _, [] => []
+  | m, none, _ :: r => "unmodelled" :: runWorld fmt top m none r
+  | m, some w, l :: r =>
+    match stepWorld fmt m w l with
+    | none => "bad-op" :: runWorld fmt top m (some w) r
+    | some none => "unmodelled" :: runWorld fmt top m none r
+    | some (some (m', w')) => showWorld top w' :: runWorld fmt top m' (some w') r
 
-def parseCfg (s : String) : Option Cfg :=
+/-- an integer, or `d` = not written in the configuration -/
+def parseOptInt (s : String) : Option (Option Int) :=
+  if s = "d" then some none else s.toInt?.map some
+
+/-- `M.B` of a channel: what the process's section says about this log -/
+def parseCfg (listener : Bool) (s : String) : Option Cfg :=
   match s.splitOn "." with
   | [m, n] =>
-    match m.toInt?, n.toInt? with
-    | some m, some n => some ⟨decide (m ≠ 0), m, n⟩        -- rotating = not not maxbytes
+    match parseOptInt m, parseOptInt n with
+    | some m, some n => chanCfg listener m n
     | _, _ => none
   | _ => none
 
-def parseChan (mk : Option (Cfg × S) → Disp) (s : String) : Option (List Disp) :=
+def parseChan (listener : Bool) (mk : Option (Cfg × S) → Disp) (s : String) : Option (List Disp) :=
   if s = "x" then some []                                    -- no such dispatcher (redirect_stderr)
   else if s = "-" then some [mk none]
-  else (parseCfg s).map fun c => [mk (some (c, init c))]
+  else (parseCfg listener s).map fun c => [mk (some (c, init c))]
 
 /-- `K:O:E`: K = p (program) | l (event listener); dispatchers in make_dispatchers' order -/
 def parseProc (s : String) : Option Proc :=
@@ -391,7 +464,7 @@ def parseProc (s : String) : Option Proc :=
   | [k, o, e] =>
     let mkOut := if k = "l" then Disp.listener else Disp.output
     if k = "p" || k = "l" then
-      match parseChan mkOut o, parseChan Disp.output e with
+      match parseChan (k = "l") mkOut o, parseChan false Disp.output e with
       | some a, some b => some (a ++ b ++ [.input])
       | _, _ => none
     else none
@@ -407,14 +480,33 @@ def withExtra (extra : String) (hs : List Handler) : Option (List Handler) :=
   else if extra = "back" then some (hs ++ [.bare 0])
   else none
 
+def kvOptInt (cfg : List String) (k : String) : Option (Option Int) :=
+  match kvGet cfg k with
+  | none => some none                 -- key absent: not given
+  | some v => if v = "-" then some none else v.toInt?.map some
+
+/-- `via=attr`: the attributes were set directly (maxbytes / backups are integers); `via=conf`: a configuration
+    file and a command line went through realize() (maxbytes / backups = what the file says or `-`,
+    climb / clibk = what the command line says or `-`) -/
+def caseCfg (cfg : List String) : Option (Option Cfg) :=
+  match kvGet cfg "via" with
+  | some "conf" =>
+    match kvOptInt cfg "maxbytes", kvOptInt cfg "backups", kvOptInt cfg "climb", kvOptInt cfg "clibk" with
+    | some fm, some fb, some cm, some cb => some (actCfg cm fm cb fb)
+    | _, _, _, _ => none
+  | some "attr" | none =>
+    match kvInt cfg "maxbytes", kvInt cfg "backups" with
+    | some m, some b => some (actCfgOfAttrs m b)
+    | _, _ => none
+  | _ => none
+
 def runCase (cfg : List String) (ops : List String) : List String :=
-  match kvBool cfg "nodaemon", kvBool cfg "silent", kvInt cfg "maxbytes", kvInt cfg "backups",
+  match kvBool cfg "nodaemon", kvBool cfg "silent", caseCfg cfg,
       kvGet cfg "extra", (kvGet cfg "fmtpre").bind bytesOfHex, kvNat cfg "show", (kvGet cfg "groups").bind parseGroups with
-  | some nd, some sl, some m, some b, some extra, some pre, some top, some gs =>
-    let c : Cfg := ⟨decide (m ≠ 0), m, b⟩
-    match (mkLogger nd sl c).bind (withExtra extra) with
-    | some hs => runWorld (fun msg => pre ++ bytesOfString msg ++ [10]) top (some ⟨hs, gs⟩) ops
+  | some nd, some sl, some oc, some extra, some pre, some top, some gs =>
+    match oc.bind fun c => (mkLogger nd sl c).bind (withExtra extra) with
+    | some hs => runWorld (fun msg => pre ++ bytesOfString msg ++ [10]) top "RUNNING" (some ⟨hs, gs⟩) ops
     | none => ops.map fun _ => "unmodelled"
-  | _, _, _, _, _, _, _, _ => ops.map fun _ => "bad-config"
+  | _, _, _, _, _, _, _ => ops.map fun _ => "bad-config"
 
 end Sv.LogFan
